@@ -73,6 +73,34 @@ def parseCoEv (ws : List String) : Option (Option CoEv) :=
   | ["de"] => some (some .dropEnd)
   | _ => none
 
+/-- `Vec::into_co_stream()` as the source: its polls cannot be observed.  The source is always
+    ready, so `drive` takes the next item (or sees the end) whenever it is at the head of its loop;
+    the polls are reconstructed accordingly: whenever the acceptor is inside a top-level poll in
+    state `loop`, a source poll is inserted — `item` while fewer than `items` were taken, then
+    `fin` — until the state leaves `loop`.  Returns the trace with the inserted events (oldest
+    first); acceptance and the monitors are then evaluated on that trace. -/
+def withHiddenSource (cfg : Cfg) (items : Nat) (evs : List CoEv) : List CoEv :=
+  let rec sat (fuel : Nat) (s : St) (acc : List CoEv) : St × List CoEv :=
+    match fuel with
+    | 0 => (s, acc)
+    | f + 1 =>
+      if s.inTop && s.ctrl = .loop && !s.srcFin then
+        let e : CoEv := if s.taken < items then .src (.item (1000 * (s.taken + 1))) else .src .fin
+        match step cfg s e with
+        | some s' => sat f s' (e :: acc)
+        | none => (s, acc)
+      else (s, acc)
+  let rec go (s : St) (rest : List CoEv) (acc : List CoEv) : List CoEv :=
+    match rest with
+    | [] => acc.reverse
+    | e :: r =>
+      match step cfg s e with
+      | some s' =>
+        let (s'', acc') := sat (items + 2) s' (e :: acc)
+        go s'' r acc'
+      | none => (acc.reverse ++ e :: r)     -- rejected: leave the rest as it is
+  go (init cfg) evs []
+
 /-- verdict line for one concurrent-stream case (events oldest first) -/
 def verdict (cfg : Cfg) (evs : List CoEv) : String :=
   let t := evs.reverse
